@@ -316,7 +316,13 @@ class Ctx:
         elif r == z3.unsat:
             return  # path is infeasible after all
         else:
+            # the path could not be shown infeasible; a model of its quantifier-free part guides the native replay
             status = "undecided"
+            detail += " (path not shown infeasible)"
+            if self.qf.check() == z3.sat:
+                model = self.task.describe_model(self, self.qf.model())
+            elif self.qf.check() == z3.unsat:
+                return
         self.obs.append(ObRec(name, status, 0.0, detail, model=model, path=self.path_id, kind=kind))
 
     # ---- heap writes (with loop-cut learning) ------------------------------------------------------
@@ -522,23 +528,38 @@ class Ctx:
         return v
 
 
+_GLOBAL_OBJS = []
+_GLOBAL_KEYS = {}
+PO_BASE = 10_000_000
+
+
+def global_obj_id(o):
+    """process-wide stable id of an immutable opaque python object (enum member, class, function)"""
+    k = _GLOBAL_KEYS.get(id(o))
+    if k is None:
+        k = len(_GLOBAL_OBJS)
+        _GLOBAL_KEYS[id(o)] = k
+        _GLOBAL_OBJS.append(o)
+    return k
+
+
+def obj_term(o):
+    return Val.objv(z3.IntVal(global_obj_id(o)))
+
+
 class ObjTab:
-    """Deterministic table of opaque python objects that flow into Val terms."""
+    """opaque python objects that flow into Val terms: global ids for immutable objects, per-path ids for PObj"""
 
     def __init__(self):
-        self.by_key = {}
-        self.objs = []
+        self.pobjs = {}
 
     def intern(self, o):
-        key = id(o)
         if isinstance(o, PObj):
-            key = ("pobj", o.serial)
-        k = self.by_key.get(key)
-        if k is None:
-            k = len(self.objs)
-            self.by_key[key] = k
-            self.objs.append(o)
-        return k
+            self.pobjs[o.serial] = o
+            return PO_BASE + o.serial
+        return global_obj_id(o)
 
     def lookup(self, k):
-        return self.objs[k]
+        if k >= PO_BASE:
+            return self.pobjs[k - PO_BASE]
+        return _GLOBAL_OBJS[k]
